@@ -40,13 +40,14 @@ func (c LoadConfig) String() string {
 
 // Program is the resolved program all rules work on.
 type Program struct {
-	RepoDir string
-	Config  LoadConfig
-	Fset    *token.FileSet
-	Pkgs    []*packages.Package          // first-party packages
-	ByPath  map[string]*packages.Package // import path -> package
-	Prog    *ssa.Program
-	SSAPkg  map[string]*ssa.Package
+	mapTables map[*ssa.Global]map[string]AVal
+	RepoDir   string
+	Config    LoadConfig
+	Fset      *token.FileSet
+	Pkgs      []*packages.Package          // first-party packages
+	ByPath    map[string]*packages.Package // import path -> package
+	Prog      *ssa.Program
+	SSAPkg    map[string]*ssa.Package
 	// SrcFuncs: every first-party function with a body (incl. closures and methods).
 	SrcFuncs []*ssa.Function
 
